@@ -141,6 +141,12 @@ func c07body(p c07plan) func() {
 						res = fmt.Sprintf("<iq type='error' id='%s' from='example.org'/>", id)
 					case "error-echo":
 						res = fmt.Sprintf("<iq type='error' id='%s' from='example.org'><query xmlns='http://jabber.org/protocol/disco#info'/></iq>", id)
+					case "result-no-from":
+						// the server answers for the account itself or simply leaves the address out (RFC 6120 8.1.2.1: an
+						// answer without from comes from the server / the account)
+						res = fmt.Sprintf("<iq type='result' id='%s'/>", id)
+					case "result-from-other-form":
+						res = fmt.Sprintf("<iq type='result' id='%s' from='Example.ORG/server'/>", id)
 					case "result-payload":
 						res = fmt.Sprintf("<iq type='result' id='%s' from='example.org'><query xmlns='http://jabber.org/protocol/disco#info'><feature var='urn:example:f'/></query></iq>", id)
 					}
@@ -472,6 +478,18 @@ func c07body(p c07plan) func() {
 				}
 			}
 		}
+		// a copy of an answer that was already delivered is a packet like any other: it reaches the ordinary routes
+		allRecv := !p.sameID && !p.seqReuse && p.respond == "twice"
+		for _, b := range p.behave {
+			allRecv = allRecv && b == "recv"
+		}
+		if allRecv {
+			for id, n := range nResp {
+				if delivered[id]+ordinary[id] != n {
+					vrt.Fail("C07|duplicate-response-not-routed|"+who, "%s: %d responses for %s were received: %d delivered to the caller, %d to the ordinary routes - the other one went nowhere", desc, n, id, delivered[id], ordinary[id])
+				}
+			}
+		}
 		if n := len(end.router.IQResultRoutes); n != 0 {
 			vrt.Fail("C07|pending-entry-left", "%s: %d pending entries remain after every context ended", desc, n)
 		}
@@ -783,8 +801,8 @@ func TestVerifC07(t *testing.T) {
 			q.ctxKind = "cancel-only"
 			plans = append(plans, q)
 		}
-		for _, a := range []string{"error-full", "error-bare", "error-echo", "result-payload"} {
-			if p.reqs == 2 && !hx.Thorough() && a != "error-bare" {
+		for _, a := range []string{"error-full", "error-bare", "error-echo", "result-payload", "result-no-from", "result-from-other-form"} {
+			if p.reqs == 2 && !hx.Thorough() && a != "error-bare" && a != "result-no-from" {
 				continue
 			}
 			q := p
